@@ -471,6 +471,7 @@ type LoopContract struct {
 	Decreases  *Clause
 	Assumes    []Clause // assumptions about values received from a channel (range over chan)
 	Coarse     bool
+	Unroll     bool
 }
 
 type Clause struct {
@@ -533,7 +534,7 @@ var clauseKeywords = map[string]bool{
 	"func": true, "cases": true, "requires": true, "ensures": true, "modifies": true,
 	"panics": true, "pure": true, "loop": true, "invariant": true, "decreases": true,
 	"assert": true, "use": true, "let": true, "mode": true, "trusted": true, "assumes": true,
-	"classes": true, "property": true, "inline": true, "coarse": true, "assume": true, "reads": true, "wraps": true, "fuel": true,
+	"classes": true, "property": true, "inline": true, "coarse": true, "assume": true, "reads": true, "wraps": true, "fuel": true, "unroll": true,
 }
 
 type rawLine struct {
@@ -690,6 +691,10 @@ func parseContractLines(lines []rawLine, pkg string) ([]*FuncContract, error) {
 		case "coarse":
 			if curLoop != nil {
 				curLoop.Coarse = true
+			}
+		case "unroll":
+			if curLoop != nil {
+				curLoop.Unroll = true
 			}
 		case "invariant", "decreases", "assumes":
 			if curLoop == nil {
